@@ -1,2 +1,61 @@
-(* placeholder until the proofs are in *)
-From AL Require Import C08.Model C08.Spec.
+From Coq Require Import List Arith ZArith.
+From AL Require Import C08.Model C08.Spec C08.Proofs.
+Import ListNotations.
+
+(* The generator model equals the closed form, for every list, size >= 1, hop >= 1. *)
+Theorem C08_blocks_model_eq_spec : forall (A : Type) (size hop : nat) (pad : A) (xs : list A), (1 <= size)%nat -> (1 <= hop)%nat -> blocks_model size hop pad xs = blocks_spec size hop pad xs.
+Proof. exact blocks_model_eq_spec. Qed.
+Print Assumptions C08_blocks_model_eq_spec.
+
+(* There are exactly K = nblocks (length xs) size hop complete blocks: the result has
+   K or K+1 blocks; block k < K is items k*hop .. k*hop+size-1 (length exactly size,
+   and it fits in the input); a (K+1)-th complete block does not fit; and the block
+   at position K, if any, is the leftover items followed by at least one pad. *)
+Theorem C08_blocks_complete_count : forall (A : Type) (size hop : nat) (pad : A) (xs : list A),
+  (1 <= size)%nat -> (1 <= hop)%nat ->
+  let K := nblocks (length xs) size hop in
+  (K <= length (blocks_spec size hop pad xs) <= K + 1)%nat /\
+  (forall k : nat, (k < K)%nat ->
+     nth_error (blocks_spec size hop pad xs) k
+       = Some (firstn size (skipn (k * hop) xs)) /\
+     length (firstn size (skipn (k * hop) xs)) = size /\
+     (k * hop + size <= length xs)%nat) /\
+  (length xs < K * hop + size)%nat /\
+  (forall b : list A,
+     nth_error (blocks_spec size hop pad xs) K = Some b ->
+     exists n : nat,
+       (1 <= n)%nat /\
+       b = skipn (K * hop) xs ++ repeat pad n /\
+       (length (skipn (K * hop) xs) + n = size)%nat).
+Proof. exact blocks_complete_count. Qed.
+Print Assumptions C08_blocks_complete_count.
+
+(* Every block, padded or not, has length size. *)
+Theorem C08_blocks_all_length_size : forall (A : Type) (size hop : nat) (pad : A) (xs : list A),
+  (1 <= size)%nat -> (1 <= hop)%nat ->
+  forall b : list A, In b (blocks_spec size hop pad xs) -> length b = size.
+Proof. exact blocks_all_length_size. Qed.
+Print Assumptions C08_blocks_all_length_size.
+
+(* A padded tail block exists iff max(size-hop,0) < L - K*hop; otherwise exactly K blocks. *)
+Theorem C08_blocks_tail_iff : forall (A : Type) (size hop : nat) (pad : A) (xs : list A),
+  let L := length xs in
+  let K := nblocks L size hop in
+  let r := (Z.of_nat L - Z.of_nat K * Z.of_nat hop)%Z in
+  (length (blocks_spec size hop pad xs) = (K + 1)%nat
+     <-> (Z.max (Z.of_nat size - Z.of_nat hop) 0 < r)%Z) /\
+  (length (blocks_spec size hop pad xs) = K
+     <-> (r <= Z.max (Z.of_nat size - Z.of_nat hop) 0)%Z).
+Proof. exact blocks_tail_iff. Qed.
+Print Assumptions C08_blocks_tail_iff.
+
+Theorem C08_zero_pad_model_eq_spec : forall (A : Type) (left right : nat) (zero : A) (xs : list A),
+  zero_pad_model left right zero xs = zero_pad_spec left right zero xs.
+Proof. exact zero_pad_model_eq_spec. Qed.
+Print Assumptions C08_zero_pad_model_eq_spec.
+
+(* Non-vacuity: size 3, hop 2 on six items gives three blocks, the last one padded. *)
+Example C08_blocks_spec_example :
+  blocks_spec 3 2 0%nat [1; 2; 3; 4; 5; 6]%nat = [[1; 2; 3]; [3; 4; 5]; [5; 6; 0]]%nat.
+Proof. vm_compute. reflexivity. Qed.
+Print Assumptions C08_blocks_spec_example.
